@@ -371,9 +371,20 @@ def _tup(x):
     return x
 
 
+# two more data columns, only used by the literal cases: a name of several characters that is also a variable of the
+# caller (the data column wins), and an ordered categorical whose order is not alphabetical
+EXTRA_COLS = {"height": [1.5 + 0.1 * ((i * 3) % 7) for i in range(N)]}
+SIZES = ["small", "medium", "large"]
+
+
+def _size_column():
+    return pd.Series(pd.Categorical([SIZES[(i * 2) % 3] for i in range(N)], categories=SIZES, ordered=True))
+
+
 def py_value(text, rec):
     env = {c: pd.Series(v, dtype=float) for c, v in COLS.items()}
     env.update(USER, rec=rec, np=np, probe=probe, m=MISSING.copy())
+    env.update({c: pd.Series(v, dtype=float) for c, v in EXTRA_COLS.items()}, size=_size_column())  # data columns come first
     return eval(text, {"__builtins__": {}}, env)  # pylint: disable=eval-used
 
 
@@ -394,8 +405,9 @@ USER = {"round": _user_round, "max": _user_max}
 def lib_design(formula, rec):
     from formulae import design_matrices
 
-    frame = pd.DataFrame(dict(COLS, y=[float(i) for i in range(N)]))
-    return design_matrices(formula, frame, extra_namespace=dict(USER, rec=rec, np=np, probe=probe, m=MISSING.copy()))
+    frame = pd.DataFrame(dict(COLS, **EXTRA_COLS, y=[float(i) for i in range(N)]))
+    frame["size"] = _size_column()
+    return design_matrices(formula, frame, extra_namespace=dict(USER, rec=rec, np=np, probe=probe, m=MISSING.copy(), height=np.zeros(N) - 5.0))
 
 
 @st.composite
@@ -647,6 +659,10 @@ LITERALS = [
     ("call", "rec", (("str", "'a\tb'"),), ()),
     ("call", "rec", (("str", "'  lead and trail  '"), ("str", '"two  blanks"')), ()),
     ("call", "rec", (("num", "0.1"), ("num", "0.30000000000000004")), ()),
+    ("bin", "/", ("col", "w"), ("bin", "**", ("par", ("col", "height")), ("num", "2"))),  # (height): the column, in parentheses
+    ("call", "rec", (("par", ("col", "height")),), (("k", ("par", ("col", "height"))),)),
+    ("bin", "<", ("col", "size"), ("str", "'medium'")),  # an ordered categorical compares by its order
+    ("bin", ">=", ("col", "size"), ("str", '"medium"')),
     ("call", "round", (("col", "x"),), ()),  # the caller's own `round` and `max`, not Python's
     ("call", "rec", (("call", "round", (("col", "z"),), (("nd", ("num", "2")),)),), (("k", ("call", "max", (("col", "w"),), ())),)),
 ]
